@@ -47,8 +47,18 @@ def main():
             return 1
         a = sh(["git", "-C", wt, "apply", os.path.abspath(os.path.join(src, "patch.diff"))])
         if a.returncode:
-            print(f"{sid}: REJECT patch does not apply: {a.stderr}")
-            return 1
+            # /repo has moved on since the change was written (later fix: commits): re-apply with fuzz; the patch that is
+            # filed is then regenerated against the current HEAD
+            a2 = sh(["patch", "-p1", "-s", "--fuzz=3", "-d", wt, "-i", os.path.abspath(os.path.join(src, "patch.diff"))])
+            if a2.returncode:
+                print(f"{sid}: REJECT patch does not apply: {a.stderr} {a2.stdout}")
+                return 1
+            for root, _, files in os.walk(wt):
+                for fn in files:
+                    if fn.endswith((".orig", ".rej")):
+                        os.remove(os.path.join(root, fn))
+            ran["rebased_on_head"] = True
+        regenerated = sh(["git", "-C", wt, "diff"]).stdout
         imp = sh([PY, "-c", "import PyMatterSim, pkgutil, importlib\n"
                   "import PyMatterSim.static.gr, PyMatterSim.static.sq, PyMatterSim.static.boo, PyMatterSim.dynamic.dynamics\n"
                   "print(PyMatterSim.static.gr.__file__)"], env=env, cwd=wt)
@@ -80,7 +90,8 @@ def main():
                 return 1
         dst = os.path.join(VERIF, "seeded", sid)
         os.makedirs(dst, exist_ok=True)
-        shutil.copy(os.path.join(src, "patch.diff"), os.path.join(dst, "patch.diff"))
+        with open(os.path.join(dst, "patch.diff"), "w") as f:
+            f.write(regenerated)
         shutil.copy(demo, os.path.join(dst, "demo.py"))
         meta = {"property": notes.get("property", sid.split("_")[0]), "summary": notes.get("summary"), "needs": notes.get("needs"),
                 "author": "independent sub-agent given only the property text and a scratch worktree",
